@@ -39,7 +39,18 @@ def owner(clause):
 # the block timestamp, and the Alephium chain id".  C04 reports the three clauses as well: a publication that is not a function of
 # the on-chain event alone (it depends on the path the event took, or on the guardian's configuration) makes honest guardians
 # sign different digests for one message ("every honest guardian observing the same message signs the same 32 bytes").
-EXTRA_OWNERS = {"reobs-forwarded-altered": {"C11", "C04"}, "poll-forwarded-altered": {"C11", "C04"}, "forwarded-altered": {"C11", "C04"}}
+#
+# delivered-altered (the pending message the watcher makes of a fetched event - handleUnconfirmedEvents -> toUnconfirmedEvent - does
+# not carry the event's fields) is C11's "is decoded into a message with exactly those values" at the first place where the
+# decoded message is kept; C08 reports it like the other ...-altered clauses (its conditions are stated about "the message's
+# consistency level").
+#
+# reobs-request-requeued (after the watcher has taken the ONE request the harness - playing the dispatcher - put on its request
+# queue, the queue holds requests nobody forwarded: the watcher put the pair back itself) is C17's "forwarded only to the watcher
+# of the chain it names, at most once per (chain, transaction) within the suppression window", observed where the statement
+# observes it (the per-chain watcher request channel); C08 reports it too (its quantifier: "node API errors at any call").
+EXTRA_OWNERS = {"reobs-forwarded-altered": {"C11", "C04"}, "poll-forwarded-altered": {"C11", "C04"}, "forwarded-altered": {"C11", "C04"},
+                "delivered-altered": {"C11"}, "reobs-request-requeued": {"C17"}}
 
 
 def owned_by(clause, pid):
@@ -166,7 +177,7 @@ def run_alphwatch(ctx, part):
         "block heights < 2^31-256 and millisecond timestamps < 2^63-2^23 (InRange); outside that range only model/implementation agreement (with Go wrap-around) is checked",
         "wall clock: block timestamps are generated >= 10 minutes away from every confirmation floor, so the clock read inside process()/handleObsvRequest cannot race the comparison; exact boundaries are exercised through isEventConfirmed directly",
     ]
-    if not ctx.broken and not ctx.spec_violations:
+    if not ctx.broken and not ctx.spec_violations and not os.environ.get("VERIF_KEEP"):
         shutil.rmtree(ctx.work, ignore_errors=True)     # keep the scratch directory only when something has to be looked at
     return kinds
 
@@ -181,22 +192,43 @@ def run_paths_for_c04(ctx):
     guardian is configured (struct literal; the production constructor on configs/alephium/{mainnet,testnet,devnet}.json) - each
     publication is compared field by field with the event by drv_alphwatch.  C04 owns only the clauses in C04_CLAUSES
     (`...-forwarded-altered`); everything else the harness part shows belongs to C08 / C09 / C11 and is reported there."""
-    # a scratch directory of its own (overlay, case file, verdicts, driver copy), whatever else runs in C04's: removed when nothing
-    # has to be looked at
+    return _run_part_for(ctx, "c04", "alephium_paths",
+                         "harness/alephium/*_verif_test.go (fake Alephium node, both delivery paths of the real watcher, shipped configurations "
+                         "read by common.ReadConfigsByNetwork) + Whv/Driver/AlphWatch.lean for the Alephium part")
+
+
+C17_CLAUSES = {c for c, who in EXTRA_OWNERS.items() if "C17" in who}
+
+
+def run_reobs_for_c17(ctx):
+    """The Alephium watcher's end of C17 ("a re-observation request is forwarded only to the watcher of the chain it names, at most
+    once per (chain, transaction) within the suppression window" - observe_at: the per-chain watcher request channels): the harness
+    plays the dispatcher and OWNS the watcher's request queue (capacity as in cmd/guardiand/node.go).  It forwards one request at a
+    time to the real handleObsvRequest loop while the fake node fails each kind of request of the re-observation path (and in ~250
+    generated single-request cases), and records whatever else is on that queue once the loop has finished with the request.  C17
+    owns only `reobs-request-requeued`; everything else this harness part shows belongs to C08 / C09 / C11 and is reported there."""
+    return _run_part_for(ctx, "c17", "alephium_request_queue",
+                         "harness/alephium/*_verif_test.go (fake Alephium node, the real handleObsvRequest loop on a request queue the harness owns; "
+                         "sentinel request as barrier) + Whv/Driver/AlphWatch.lean for the Alephium watcher's request queue")
+
+
+def _run_part_for(ctx, part, cov_key, trusted):
+    # a scratch directory of its own (overlay, case file, verdicts, driver copy), whatever else runs in the caller's: removed when
+    # nothing has to be looked at
     outer = ctx.work
     ctx.work = os.path.join(vlib.WORK, "%s.alph.%d" % (ctx.pid, os.getpid()))
     shutil.rmtree(ctx.work, ignore_errors=True)
     os.makedirs(ctx.work, exist_ok=True)
     n_broken, n_spec = len(ctx.broken), len(ctx.spec_violations)
     try:
-        return _run_paths_for_c04(ctx)
+        return _run_part(ctx, part, cov_key, trusted)
     finally:
         if len(ctx.broken) == n_broken and len(ctx.spec_violations) == n_spec and not os.environ.get("VERIF_KEEP"):
             shutil.rmtree(ctx.work, ignore_errors=True)
         ctx.work = outer
 
 
-def _run_paths_for_c04(ctx):
+def _run_part(ctx, part, cov_key, trusted):
     rc, out = ctx.lake_build(["drv_alphwatch"])
     if rc != 0:
         ctx.broken.append(("tie", "driver-build", "lake build drv_alphwatch failed: %s" % out[-400:]))
@@ -207,14 +239,14 @@ def _run_paths_for_c04(ctx):
     src = os.path.join(ctx.work, "alphwatch.cases")
     if os.path.exists(src):
         os.remove(src)
-    rc, out = ctx.go_test("node", "./pkg/alephium", "^TestVerifAlphWatch$", ov, env={"VERIF_PART": "c04"})
+    rc, out = ctx.go_test("node", "./pkg/alephium", "^TestVerifAlphWatch$", ov, env={"VERIF_PART": part})
     last = ""
     if os.path.exists(src):
         with open(src) as f:
             for ln in f:
                 last = ln
     if rc != 0 or last.strip() != "end end":
-        ctx.broken.append(("tie", "go-harness:alphwatch(c04)", out[-1200:]))
+        ctx.broken.append(("tie", "go-harness:alphwatch(%s)" % part, out[-1200:]))
         return None
     ids = set()
     with open(src) as f:
@@ -226,9 +258,8 @@ def _run_paths_for_c04(ctx):
     n_ok, stats = judge(ctx, "alphwatch", src)
     ctx.cov["evaluations"] += len(ids)
     ctx.cov["distinct_nontrivial"] += n_ok
-    ctx.cov["alephium_paths"] = {"cases": len(ids), "ok": n_ok, "driver_stats": stats}
+    ctx.cov[cov_key] = {"cases": len(ids), "ok": n_ok, "driver_stats": stats}
     if keep["driver_stats"] is not None:
         ctx.cov["driver_stats"] = keep["driver_stats"]
-    ctx.cov["trusted_base"] += ["harness/alephium/*_verif_test.go (fake Alephium node, both delivery paths of the real watcher, shipped configurations "
-                                "read by common.ReadConfigsByNetwork) + Whv/Driver/AlphWatch.lean for the Alephium part"]
+    ctx.cov["trusted_base"] += [trusted]
     return len(ids)
